@@ -33,6 +33,7 @@ PROP = {
         "re-stamped siblings share one body and one decodeState: every sibling of a fresh message (constructed / decoded provenance) is framed through the buildFrameBuffers hook and written through a real connection in forward, reverse and random orders, each frame compared with that sibling's own ToBytes()",
         "Derive() chains draw invalid arguments at every builder step (stream 128..255, errored item, W-bit on an even function) and every kind of item override (WithItem(nil), the empty item, the empty list, another item; last override wins, nil/empty = header-only frame, never overridden = the source's body) from constructed and decoded bases (incl. decoded headers no constructor produces), with a corpus violating each validation clause at each chain position; the oracle judges Build by the final requested fields (documented error order) and a successful Build by the E37 layout of exactly those fields",
         "cross-generation overlap history (sender of generation N parked in its write path, N dropped by the peer, sender of N+1 inside its transport Write with its prefix partly read, N's sender released and awaited, rest read): what the peer reads on N+1 must be that message's ToBytes(); all waits are on events (parked / dialled / Selected / sender returned / bytes read), none on quiet periods; plus an unparked race of 4 senders over 3 generations (every complete frame read must be one of the messages sent)",
+        "NewDataMessageFromHeader is judged like Derive/Build: corpus over PType x SType x W-bit x function parity x (item, nil, errored items incl. an errored list child) plus random headers; refusal class in the documented order (PType, SType, item error, W-bit on an even function); a success carries the header unchanged and the item's encoding, and its frame decodes with a decodable body",
         "on-the-wire equality is observed for the sends the harness performs (sync W / sync no-W / async / reply / forward sync+async / SendSECS2Message, Select.req, Linktest.req, Separate.req); writeFrame's choice of buffers is tied by the hook on every pure case",
     ],
 }
